@@ -37,6 +37,31 @@ def run():
             if nconf:
                 s["steps"].insert(2, {"a": "rule", "rule": {"on": "UpstreamResumeRequest", "do": "codes", "codes": [CONFLICT] * nconf + [1]}})
             scs.append(s)
+    # partition family: the outage is noticed by keep-alive only (the broker falls completely silent, no EOF) with k chunks in flight;
+    # the sent storage is wrapped by a logging storage so that every removal is attributed (code-level StoredUntilAcked)
+    # (as coded at the pinned commit each in-flight chunk was dropped from the store with probability of about 7 %: 94 chunks in flight in the quick tier)
+    for k in (1, 4, 20):
+        for rep in range({1: 2, 4: 3, 20: 4}[k] * (1 if quick else 4)):
+            steps = [{"a": "connect", "must": True},
+                     {"a": "openUp", "obj": "U1", "qos": "reliable", "must": True, "closeTimeoutMs": 3000, "policy": {"k": "immediate"}}]
+            for t in range(1, k + 1):
+                steps.append({"a": "write", "g": "W", "obj": "U1", "id": "AB"[t % 2], "pts": [[t, 8]], "wait": True})
+            steps += [{"a": "await", "ev": "BRecvChunk", "match": {"seq": k}, "ms": 1000}, {"a": "silent", "mode": "on"},
+                      {"a": "await", "ev": "Dial", "match": {"n": 2}, "ms": 4000, "must": True}, {"a": "silent", "mode": "off"},
+                      {"a": "await", "ev": "UpResumed", "ms": 2000}, {"a": "sleep", "ms": 250},
+                      {"a": "closeUp", "g": "C", "obj": "U1", "ctxMs": 3000}, {"a": "ackUntilIdle", "obj": "U1", "src": "C", "ms": 3000},
+                      {"a": "join", "obj": "C"}, {"a": "quiesce"}, {"a": "closeConn", "g": "X", "ctxMs": 2000, "wait": True}, {"a": "quiesce", "ms": 50}]
+            scs.append({"id": "C02/partition/k%d/%d" % (k, rep), "kind": "iscp", "conn": dict(conn, storage="logged"), "steps": steps})
+    # out-of-order acknowledgement before the cut: the later chunk is acknowledged, the earlier one is not
+    for n in (2, 3):
+        steps = [{"a": "connect", "must": True}, {"a": "openUp", "obj": "U1", "qos": "reliable", "must": True, "closeTimeoutMs": 3000, "policy": {"k": "immediate"}}]
+        for t in range(1, n + 1):
+            steps.append({"a": "write", "g": "W", "obj": "U1", "id": "A", "pts": [[t, 8]], "wait": True})
+        steps += [{"a": "ack", "obj": "U1", "seqs": [n], "ms": 1000}, {"a": "await", "ev": "HookAfter", "match": {"seq": n}, "ms": 1000}, {"a": "sleep", "ms": 20},
+                  {"a": "cut"}, {"a": "await", "ev": "UpResumed", "ms": 4000}, {"a": "sleep", "ms": 250},
+                  {"a": "closeUp", "g": "C", "obj": "U1", "ctxMs": 3000}, {"a": "ackUntilIdle", "obj": "U1", "src": "C", "ms": 3000},
+                  {"a": "join", "obj": "C"}, {"a": "quiesce"}, {"a": "closeConn", "g": "X", "ctxMs": 2000, "wait": True}, {"a": "quiesce", "ms": 50}]
+        scs.append({"id": "C02/ackedLaterOnly/%d" % n, "kind": "iscp", "conn": dict(conn, storage="logged"), "steps": steps})
     trace = ctx.run_scenarios(scs, "c02", par=8)
     verdicts, _ = ctx.validate(trace, "MonC02")
     ctx.judge(scs, trace, verdicts)
